@@ -96,7 +96,8 @@ out=""; prev=""
 for a in "$@"; do [ "$prev" = "-o" ] && out="$a"; prev="$a"; done
 while IFS= read -r p; do
   printf 'P %s\n' "$p" >> "$f.tmp"
-  if [ -f "$p" ]; then printf 'C %s\n' "$(head -n 1 "$p")" >> "$f.tmp"; else echo "C <missing>" >> "$f.tmp"; fi
+  if [ -f "$p" ]; then printf 'C %s\n' "$(head -n 1 "$p")" >> "$f.tmp"; printf 'H %s\n' "$(sha1sum < "$p" | cut -c1-40)" >> "$f.tmp"
+  else echo "C <missing>" >> "$f.tmp"; echo "H <missing>" >> "$f.tmp"; fi
 done
 if [ -f "$d/merge_fails" ]; then echo "RC 1" >> "$f.tmp"; mv "$f.tmp" "$f"; echo "stub: merge failure requested" >&2; exit 1; fi
 [ -n "$out" ] && echo "merged-$$" > "$out"
@@ -153,7 +154,8 @@ def read_log(tools_dir):
             continue
         if fn.startswith("profdata."):
             merges.append({"argv": argv, "paths": [l[2:] for l in lines if l.startswith("P ")],
-                           "ids": [l[2:] for l in lines if l.startswith("C ")], "token": get("TOKEN"), "rc": int(get("RC"))})
+                           "ids": [l[2:] for l in lines if l.startswith("C ")],
+                           "hashes": [l[2:] for l in lines if l.startswith("H ")], "token": get("TOKEN"), "rc": int(get("RC"))})
         else:
             exports.append({"argv": argv, "id": get("ID"), "token": get("TOKEN"), "rc": int(get("RC"))})
     return merges, exports
@@ -165,6 +167,7 @@ def read_log(tools_dir):
 
 PROF_NAMES = ["a", "b", "default", "a_1", "a_1_1", "run.2", "x-y"]
 SUBDIRS = ["", "", "sub", "sub/deep", "t_1", ".hid"]
+COLLIDING = [["a/b", "a_b"], ["run/1", "run_1"], ["sub/deep/x", "sub_deep/x", "sub/deep_x"], ["t/1/default", "t_1/default", "t_1_default"]]
 NOISE = ["notes.txt", "a.profraw.bak", "b.PROFRAW", "c.prof", "d.profdatax", "profraw"]
 
 
@@ -184,6 +187,12 @@ def gen_layout(rng, force_kind=None):
             inputs[-1]["files"] = [[inputs[-1]["name"], pid()]]
             continue
         files, seen = [], set()
+        if rng.random() < 0.2:
+            # names that differ only by '/' versus '_' (a/b and a_b): their temporary names must stay distinct
+            kk = rng.choice(kinds)
+            for rel in rng.choice(COLLIDING):
+                seen.add(rel + "." + kk)
+                files.append([rel + "." + kk, pid()])
         for _ in range(rng.choice([0, 1, 2, 3, 4])):
             rel = os.path.join(rng.choice(SUBDIRS), rng.choice(PROF_NAMES) + "." + rng.choice(kinds))
             if rel not in seen:
@@ -199,20 +208,31 @@ def gen_layout(rng, force_kind=None):
     return inputs
 
 
+def profile_bytes(i):
+    """unique content per generated profile: the id line plus bytes derived from it"""
+    import hashlib
+    return (i + "\n").encode() + hashlib.sha256(i.encode()).digest() * 3
+
+
+def profile_hash(i):
+    import hashlib
+    return hashlib.sha1(profile_bytes(i)).hexdigest()
+
+
 def write_layout(root, inputs):
     """materialise under root; returns the command-line arguments (relative to root)."""
     args = []
     for inp in inputs:
         p = os.path.join(root, inp["name"])
         if inp["kind"] == "plain":
-            with open(p, "w") as f:
-                f.write(inp["files"][0][1] + "\n")
+            with open(p, "wb") as f:
+                f.write(profile_bytes(inp["files"][0][1]))
         elif inp["kind"] == "dir":
             os.makedirs(p, exist_ok=True)
             for rel, i in inp["files"]:
                 os.makedirs(os.path.dirname(os.path.join(p, rel)), exist_ok=True)
-                with open(os.path.join(p, rel), "w") as f:
-                    f.write(i + "\n")
+                with open(os.path.join(p, rel), "wb") as f:
+                    f.write(profile_bytes(i))
             for rel in inp["noise"]:
                 if rel.endswith("/"):
                     os.makedirs(os.path.join(p, rel), exist_ok=True)
@@ -226,7 +246,7 @@ def write_layout(root, inputs):
                     if not rel.endswith("/"):
                         z.writestr(rel, "noise\n")
                 for rel, i in inp["files"]:
-                    z.writestr(rel, i + "\n")
+                    z.writestr(rel, profile_bytes(i))
         args.append(inp["name"])
     return args
 
@@ -341,6 +361,19 @@ def gen_program(rng):
             "static inline unsigned never_used(unsigned x)", "{", "    return x + 1;", "}",
             "#endif"]) + "\n"
 
+    # sources the compiler sees under an ABSOLUTE name: a header with executable code in an include directory passed as an
+    # absolute -I path, and translation units compiled through their absolute path
+    abs_include = rng.random() < 0.4
+    if abs_include:
+        files["include/absinc.h"] = "\n".join([
+            "#ifndef ABSINC_H", "#define ABSINC_H",
+            "static inline unsigned absinc_fn(unsigned x)", "{",
+            "    if (x %% %d == 0)" % rng.choice([2, 3, 5]),
+            "        return x + %d;" % rng.randrange(1, 9),
+            "    return x;", "}",
+            "#endif"]) + "\n"
+    abs_units = []
+
     def body(i):
         kind = rng.choice(["straight", "ifelse", "for", "while", "switch", "nested", "ternary"])
         k, c, c2 = rng.randrange(2, 6), rng.randrange(1, 20), rng.randrange(1, 9)
@@ -380,15 +413,24 @@ def gen_program(rng):
         if m > 0 and not name.startswith("sub/") and rng.random() < 0.4:
             # a file name with an extra dot: stats.v2.c -> stats.v2.gcno
             name = rng.choice(["m%d.v2.c", "unit%d.test.c", "m%d.x.y.c", "a.m%d.c"]) % m
-        hdr_ok = use_hdr and not name.startswith("sub/")
+        is_abs = rng.random() < 0.25
+        if is_abs:
+            abs_units.append(name)
+        # (a unit compiled by absolute path would see util.h under a second, absolute spelling: it does not include it)
+        hdr_ok = use_hdr and not name.startswith("sub/") and not is_abs
+        inc_ok = abs_include and (m == 0 or rng.random() < 0.6)
         L = ["#include <stdio.h>", "#include <stdlib.h>",
              '#include "%sprotos.h"' % ("../" if name.startswith("sub/") else "")]
         if hdr_ok:
             L.append('#include "util.h"')
+        if inc_ok:
+            L.append('#include "absinc.h"')
         for i in fs:
             b = body(i)
             if not hdr_ok:
                 b = [x for x in b if "twice(" not in x]
+            if inc_ok and rng.random() < 0.7:
+                b = b[:-2] + ["    r += absinc_fn(r & 15);"] + b[-2:]
             L += b
         if pair and m == 0:
             # two functions defined on one source line
@@ -405,6 +447,8 @@ def gen_program(rng):
                     L += ["    if (n > %d)" % rng.choice([0, 1, 2, 4, 100]), "        acc += fn_%d(n);" % j]
             if pair:
                 L += ["    if (n > %d)" % rng.choice([0, 2, 100]), "        acc += pb(n);"]
+            if inc_ok:
+                L += ["    acc += absinc_fn(n);"]
             L += ['    printf("%u\\n", acc);', "    return 0;", "}"]
         files[name] = "\n".join(L) + "\n"
         units.append(name)
@@ -414,7 +458,8 @@ def gen_program(rng):
     stale = []
     if runs and rng.random() < 0.35:
         stale = rng.sample(units, min(len(units), rng.choice([1, 1, 2])))
-    return {"files": files, "units": units, "runs": runs, "pair_line": pair, "stale": stale}
+    return {"files": files, "units": units, "runs": runs, "pair_line": pair, "stale": stale,
+            "abs_include": abs_include, "abs_units": abs_units}
 
 
 # ----------------------------------------------------------------------------
